@@ -146,7 +146,7 @@ class World:
         self.last_free = None
         _save_originals()
         for mod, names in (
-            (dataset, ("SharedMemory", "get_capacity", "time", "uuid", "disk")),
+            (dataset, ("SharedMemory", "get_capacity", "time", "disk")),
             (disk, ("SharedMemory", "multiprocessing", "tempfile", "ThreadPoolExecutor")),
             (client, ("SharedMemory", "multiprocessing", "socket", "time")),
             (server, ("socket", "signal")),
@@ -180,7 +180,11 @@ class World:
             w.rd += 1
             return f"{w.rd:08d}-xxxx"
 
-        dataset.uuid = types.SimpleNamespace(uuid4=uuid4)
+        # reader ids: owned if the module draws them from uuid (a tree that derives them otherwise has nothing to own)
+        if hasattr(dataset, "uuid"):
+            dataset.uuid = types.SimpleNamespace(uuid4=uuid4)
+        elif hasattr(dataset, "uuid4"):
+            dataset.uuid4 = uuid4
         client.time = types.SimpleNamespace(sleep=lambda s: None)
 
         # the real _page_out/_page_in bodies write and read REAL files, in a directory created lazily per world under a
@@ -190,6 +194,8 @@ class World:
         self._dir: str | None = None
         self.fail_file_open = False
         self.pending: list[tuple[str, str, tuple]] = []  # (kind, shmid, args)
+        self.eager = None          # armed variant: jobs submitted by the next request complete inline
+        self.arm_used = self.eager_fired = self.allow_arm = False
         self.abandoned: set = set()  # (key, incarnation) of unfinished datasets paged out under a stale writer
         self.io_result: list = []  # split mode: None while the job's I/O has not run, else the result awaiting delivery
         self.split = False  # split mode: a disk job's I/O and the delivery of its result to the store are two events
@@ -208,11 +214,13 @@ class World:
                 w.pending.append(("out", shmid, (shmid, callback)))
                 w.io_result.append(None)
                 w.on_job_start("out", shmid)
+                w._maybe_eager()
 
             def page_in(self, shmid, size, callback):
                 w.pending.append(("in", shmid, (shmid, size, callback)))
                 w.io_result.append(None)
                 w.on_job_start("in", shmid)
+                w._maybe_eager()
 
         self._real_disk = real_disk
         dataset.disk = types.SimpleNamespace(Disk=VirtualDisk)
@@ -337,9 +345,24 @@ class World:
                 continue
             for v in self.variants:
                 evs.append(("done", j, v))
+        if self.allow_arm and not self.arm_used:
+            evs.append(("arm", "ok"))
+            evs.append(("arm", "fail-early"))
         if self.allow_age and self.aged_at is None and (not self.writers or self.allow_age == "writers") and (self.writers or any(self.readers.values())):
             evs.append(("age",))  # 16 minutes pass: every handle open now is older than the staleness window afterwards
         return evs
+
+    def _maybe_eager(self) -> None:
+        """armed: the disk thread is faster than the server thread -- the job just submitted runs to completion
+        (callback included) before the request that launched it returns"""
+        if self.eager is not None and not self.split and not self.real:
+            self.eager_fired = True
+            self.ev_done(len(self.pending) - 1, self.eager)
+
+    def ev_arm(self, variant: str) -> None:
+        self.eager = variant
+        self.arm_used = True
+        self.last_answer = "armed"
 
     def ev_age(self) -> None:
         self.clock += int(16 * 60 * 1e9)
@@ -349,6 +372,8 @@ class World:
     def apply(self, ev: tuple) -> None:
         n = len(self.viol)
         getattr(self, "ev_" + ev[0])(*ev[1:])
+        if ev[0] != "arm":
+            self.eager = None  # arming covers the next request only
         if len(self.viol) == n:  # a root-cause monitor fired inside the event: do not also report its consequences
             self.check_invariants(ev)
         self.trace.append((ev, self.last_answer, self.last_free, tuple(sorted((k, d.status.name) for k, d in self.mgr.datasets.items()))))
@@ -632,7 +657,7 @@ class World:
             tuple(sorted(f for f in os.listdir(self._dir) if not f.endswith(".lost"))) if self._dir else (),
             tuple(sorted((k, self.fresh(b)) for k, b in self.writers.items())),
             tuple(sorted((k, tuple(sorted(self.fresh(b) for b in v))) for k, v in self.readers.items() if v)),
-            self.aged_at is not None,
+            self.aged_at is not None, self.eager, self.arm_used,
             tuple(sorted((k, d.created < (self.aged_at or 0), tuple(sorted(t < (self.aged_at or 0) for t in d.ongoing_reads.values()))) for k, d in m.datasets.items())),
             tuple(sorted(self.ref_resident)), tuple(sorted(self.ref_known)), tuple(sorted(self.ref_ondisk)),
             tuple(sorted(self.ref_written)), tuple(sorted(self.ref_delayed)),
@@ -644,6 +669,7 @@ def build(cfg: dict, hist: list, real: bool = False) -> World:
     w = World(cfg["capacity"], cfg["sizes"], tuple(cfg.get("variants", ("ok", "fail-early", "fail-late"))), real=real)
     w.allow_age = cfg.get("age") or False  # True: readers may grow stale; "writers": writers too
     w.split = bool(cfg.get("split"))
+    w.allow_arm = bool(cfg.get("eager"))
     for ev in hist:
         w.apply(tuple(ev))
     return w
@@ -669,22 +695,26 @@ def liveness_violations(cfg: dict, hist: list) -> list[tuple[str, str, str]]:
         if w.sizes[k] + pinned > w.capacity:
             continue  # not satisfiable by evicting idle datasets
         granted = False
+        deferred = False
         ans = None
+        w.eager = None  # the closure completes every job successfully
         for _ in range(len(w.sizes) + 3):
             while w.pending:
                 w.apply(("cb", 0) if w.io_result[0] is not None else ("done", 0, "ok"))
             if w.viol:
-                break  # a safety monitor fired while the jobs completed: that root cause is reported by its own monitor
+                deferred = True  # a safety monitor fired while the jobs completed: that root cause is reported by its own monitor
+                break
             w.apply(req)
             ans = w.last_answer
             if w.viol:
+                deferred = True
                 break
             if ans == "granted":
                 granted = True
                 break
             if ans != "wait":
                 break
-        if not granted and ans == "wait":
+        if not granted and ans == "wait" and not deferred:
             m = w.mgr
             stuck = [f"{kk}:{d.status.name}" for kk, d in m.datasets.items() if d.status.name in ("paged_in", "paging_out") and not w.pending]
             if m.pageout_all.locked() and not w.pending and not stuck:
